@@ -38,8 +38,8 @@ def dense_members(tier):
                     m = len(A)
                     for ks in itertools.product(S.ROW_KINDS, repeat=m):
                         for vk in itertools.product(S.VAR_KINDS, repeat=n):
-                            if n == 3 and (hi + gi + ai + S.VAR_KINDS.index(vk[0])) % 2 == 1:
-                                continue  # n=3: half of the table (documented cap)
+                            if n == 3 and (hi + gi + ai + S.VAR_KINDS.index(vk[0])) % 4 != 0:
+                                continue  # n=3: a quarter of the table (documented cap)
                             rows = []
                             for a, k in zip(A, ks):
                                 lo, hi_ = row_bounds(k)
@@ -112,7 +112,7 @@ def cases(tier, seed):
                         for cfg in (CONFIGS if tier == "thorough" else [CONFIGS[0], CONFIGS[1 + (hi + gi) % 6]]):
                             sp = dict(spn); sp["x0"] = x0; sp["y0"] = [0.0] * len(spn["rows"])
                             out.append({"spec": sp, "cfg": cfg})
-    sizes = (20, 50) if tier == "quick" else (20, 50, 100, 200)
+    sizes = (20, 50) if tier == "quick" else (20, 50, 100)
     for n in sizes:
         for pat in ("free", "boxed", "mixed"):
             for k in ((0, 2) if tier == "quick" else range(5)):
